@@ -225,13 +225,13 @@ Proof.
 Qed.
 
 Theorem us_sound (s : st) dev : us_layout s -> (forall c, In c dev -> 0 <= c < 72) ->
-  exists pls, plan_us 16 s dev = Ok pls /\
+  exists pls, plan_us_core 16 s dev = Ok pls /\
               apply_us 16 s dev pls = Ok (get_enabled_uplink_channel_indices s).
 Proof.
   intros HL Hd. pose proof HL as [Hn _].
   destruct (generic_sound 16 ltac:(lia) s dev ltac:(lia)) as [a [Ea Sa]].
   { intros c Hc. apply Hd in Hc. lia. }
-  unfold plan_us. rewrite Ea. cbn [bind]. eexists. split; [reflexivity|].
+  unfold plan_us_core. rewrite Ea. cbn [bind]. eexists. split; [reflexivity|].
   destruct (length a <? length (plan_us_alt 16 s))%nat; [|now apply us_alt_sound].
   (* the generic plan only uses ChMaskCntl 0..4 here, which both apply functions treat alike *)
   rewrite <- (target_us s dev HL), <- Sa. unfold apply_us, apply_generic.
@@ -249,27 +249,27 @@ Qed.
 
 (* count and no-op carry over: the shorter of the two plans is returned *)
 Theorem us_count (s : st) dev : (forall c, In c dev -> 0 <= c < zlen (up s)) ->
-  exists pls, plan_us 16 s dev = Ok pls /\ Z.of_nat (length pls) <= blocks 16 (zlen (up s)).
+  exists pls, plan_us_core 16 s dev = Ok pls /\ Z.of_nat (length pls) <= blocks 16 (zlen (up s)).
 Proof.
   intros Hd. destruct (generic_count 16 ltac:(lia) s dev Hd) as [a [Ea Ca]].
-  unfold plan_us. rewrite Ea. cbn [bind]. eexists. split; [reflexivity|].
+  unfold plan_us_core. rewrite Ea. cbn [bind]. eexists. split; [reflexivity|].
   destruct (length a <? length (plan_us_alt 16 s))%nat eqn:C; [exact Ca|].
   apply Nat.ltb_ge in C. lia.
 Qed.
 
-Theorem us_noop (s : st) dev : same_set dev (target s dev) -> plan_us 16 s dev = Ok [].
+Theorem us_noop (s : st) dev : same_set dev (target s dev) -> plan_us_core 16 s dev = Ok [].
 Proof.
-  intros H. unfold plan_us. rewrite (generic_noop 16 s dev H). cbn [bind]. reflexivity.
+  intros H. unfold plan_us_core. rewrite (generic_noop 16 s dev H). cbn [bind]. reflexivity.
 Qed.
 
 (* both US/AU plans fit the wire format *)
 Theorem us_encodable (s : st) dev : us_layout s -> (forall c, In c dev -> 0 <= c < 72) ->
-  exists pls, plan_us 16 s dev = Ok pls /\ forallb encodable pls = true.
+  exists pls, plan_us_core 16 s dev = Ok pls /\ forallb encodable pls = true.
 Proof.
   intros HL Hd. pose proof HL as [Hn _].
   destruct (generic_encodable s dev ltac:(lia)) as [a [Ea Ha]].
   { intros c Hc. apply Hd in Hc. lia. }
-  unfold plan_us. rewrite Ea. cbn [bind]. eexists. split; [reflexivity|].
+  unfold plan_us_core. rewrite Ea. cbn [bind]. eexists. split; [reflexivity|].
   destruct (length a <? length (plan_us_alt 16 s))%nat; [exact Ha|].
   unfold plan_us_alt. rewrite enabled_sorted. set (en := get_enabled_uplink_channel_indices s).
   rewrite us_loop_spec. cbn [fst snd forallb].
